@@ -117,7 +117,7 @@ func main() {
 	os.Setenv("GOSUMDB", "off")
 	os.Setenv("GOTOOLCHAIN", "local")
 	cfg := &packages.Config{
-		Mode:  packages.NeedName | packages.NeedFiles | packages.NeedSyntax | packages.NeedTypes | packages.NeedTypesInfo | packages.NeedCompiledGoFiles,
+		Mode:  packages.NeedName | packages.NeedFiles | packages.NeedSyntax | packages.NeedTypes | packages.NeedTypesInfo | packages.NeedCompiledGoFiles | packages.NeedImports,
 		Dir:   *dst,
 		Tests: false,
 	}
@@ -200,6 +200,8 @@ type rewriter struct {
 	// fine: insert statement-level scheduling points (protocol packages only)
 	fine   bool
 	fineFn string // Fine (files with synchronisation of their own) or FineAll
+	pkg     *types.Package
+	imports map[string]string // import path -> local name in this file
 	noFine int // > 0 inside the body of a range over a map that may iterate in native order
 }
 
@@ -216,6 +218,19 @@ func (r *rewriter) site(kind string, p token.Pos) string {
 func rewrite(p *packages.Package, f *ast.File, path string, stats map[string]int) {
 	r := &rewriter{fset: p.Fset, file: p.Fset.File(f.Pos()), info: p.TypesInfo, base: filepath.Base(path), stats: stats}
 	r.fine = p.PkgPath == modPath || p.PkgPath == modPath+"/dbkit"
+	r.pkg, r.imports = p.Types, map[string]string{}
+	for _, imp := range f.Imports {
+		ip, _ := strconv.Unquote(imp.Path.Value)
+		name := ""
+		if imp.Name != nil {
+			name = imp.Name.Name
+		} else if ip2 := p.Imports[ip]; ip2 != nil && ip2.Name != "" {
+			name = ip2.Name
+		} else {
+			name = ip[strings.LastIndex(ip, "/")+1:]
+		}
+		r.imports[ip] = name
+	}
 	// files that use locks, channels, goroutines or contexts themselves are the protocol files: their
 	// statement-level scheduling points are active at level 1, the others only at level 2
 	r.fineFn = "FineAll"
@@ -467,11 +482,145 @@ func (r *rewriter) around(s ast.Stmt, kind string) {
 	r.stats["chanops"]++
 }
 
+// recvClause describes a communication clause that receives from a channel.
+type recvClause struct {
+	ch      ast.Expr
+	val, ok ast.Expr // bound expressions (nil or "_" when absent)
+	tok     token.Token
+}
+
+// recvOnly analyses a blocking select: if every clause is a receive in one of the forms `<-ch`, `v := <-ch`,
+// `v, ok := <-ch`, `v = <-ch`, `v, ok = <-ch` it returns the clauses.
+func (r *rewriter) recvOnly(s *ast.SelectStmt) ([]recvClause, bool) {
+	var out []recvClause
+	for _, c := range s.Body.List {
+		cc := c.(*ast.CommClause)
+		hasLit := false
+		ast.Inspect(cc.Comm, func(n ast.Node) bool {
+			if _, ok := n.(*ast.FuncLit); ok {
+				hasLit = true
+			}
+			return true
+		})
+		if hasLit {
+			return nil, false
+		}
+		var rc recvClause
+		switch st := cc.Comm.(type) {
+		case *ast.ExprStmt:
+			u, ok := ast.Unparen(st.X).(*ast.UnaryExpr)
+			if !ok || u.Op != token.ARROW {
+				return nil, false
+			}
+			rc.ch = u.X
+		case *ast.AssignStmt:
+			if len(st.Rhs) != 1 || len(st.Lhs) < 1 || len(st.Lhs) > 2 {
+				return nil, false
+			}
+			u, ok := ast.Unparen(st.Rhs[0]).(*ast.UnaryExpr)
+			if !ok || u.Op != token.ARROW {
+				return nil, false
+			}
+			rc.ch, rc.tok, rc.val = u.X, st.Tok, st.Lhs[0]
+			if len(st.Lhs) == 2 {
+				rc.ok = st.Lhs[1]
+			}
+		default:
+			return nil, false
+		}
+		out = append(out, rc)
+	}
+	return out, len(out) > 0
+}
+
+func isBlank(e ast.Expr) bool {
+	id, ok := e.(*ast.Ident)
+	return e == nil || (ok && id.Name == "_")
+}
+
+// elemTypeString renders the element type of a channel expression so that it can be written into the file,
+// or "" if that needs a package the file does not import.
+func (r *rewriter) elemTypeString(ch ast.Expr) string {
+	t := r.info.TypeOf(ch)
+	if t == nil {
+		return ""
+	}
+	c, ok := t.Underlying().(*types.Chan)
+	if !ok {
+		return ""
+	}
+	bad := false
+	s := types.TypeString(c.Elem(), func(p *types.Package) string {
+		if p == r.pkg {
+			return ""
+		}
+		if name, ok := r.imports[p.Path()]; ok {
+			return name
+		}
+		bad = true
+		return p.Name()
+	})
+	if bad {
+		return ""
+	}
+	return s
+}
+
+// seededSelect rewrites a blocking receive-only select into a call of simrt.SelectRecv, which chooses among
+// several ready cases in source order instead of leaving the choice to the runtime (a legal refinement of the
+// select statement), followed by a switch over the chosen case.
+func (r *rewriter) seededSelect(s *ast.SelectStmt, before token.Pos, clauses []recvClause) bool {
+	assigns := make([]string, len(clauses))
+	var chans []string
+	for i, rc := range clauses {
+		chans = append(chans, types.ExprString(rc.ch))
+		if isBlank(rc.val) && isBlank(rc.ok) {
+			continue
+		}
+		op := ":="
+		if rc.tok == token.ASSIGN {
+			op = "="
+		}
+		var lhs, rhs []string
+		if !isBlank(rc.val) {
+			ts := r.elemTypeString(rc.ch)
+			if ts == "" {
+				return false
+			}
+			lhs = append(lhs, types.ExprString(rc.val))
+			rhs = append(rhs, "verifsimrt.As["+ts+"](verifVal)")
+		}
+		if !isBlank(rc.ok) {
+			lhs = append(lhs, types.ExprString(rc.ok))
+			rhs = append(rhs, "verifOK")
+		}
+		assigns[i] = strings.Join(lhs, ", ") + " " + op + " " + strings.Join(rhs, ", ") + "; "
+	}
+	head := "verifsimrt.Yield(" + r.site("select", s.Pos()) + "); { verifIdx, verifVal, verifOK := verifsimrt.SelectRecv(" + strings.Join(chans, ", ") + "); _, _ = verifVal, verifOK; switch verifIdx {"
+	r.edits = append(r.edits, edit{off: r.off(before), del: r.off(s.Body.Lbrace) + 1 - r.off(before), text: head, seq: len(r.edits)})
+	for i, c := range s.Body.List {
+		cc := c.(*ast.CommClause)
+		text := "case " + strconv.Itoa(i) + ": verifsimrt.Yield(" + r.site("wake"+strconv.Itoa(i), cc.Pos()) + "); " + assigns[i]
+		r.edits = append(r.edits, edit{off: r.off(cc.Pos()), del: r.off(cc.Colon) + 1 - r.off(cc.Pos()), text: text, seq: len(r.edits)})
+		r.block(cc.Body)
+	}
+	r.insert(s.Body.Rbrace, "default: panic(\"verifsim: no case selected\"); ")
+	r.insert(s.End(), " }")
+	r.needs = true
+	r.stats["seeded_selects"]++
+	return true
+}
+
 func (r *rewriter) selectStmt(s *ast.SelectStmt, before token.Pos, inList bool) {
 	blocking := true
 	for _, c := range s.Body.List {
 		if c.(*ast.CommClause).Comm == nil {
 			blocking = false
+		}
+	}
+	if blocking && inList && before == s.Pos() {
+		if clauses, ok := r.recvOnly(s); ok && r.seededSelect(s, before, clauses) {
+			return
 		}
 	}
 	for i, c := range s.Body.List {
